@@ -8,7 +8,7 @@ from ..oracle import Oracle, OracleMismatch
 
 # "any element universe": both orientations of a pair are different elements, and tuples need not be mutually orderable
 UNIVERSE = [(0, 1), (1, 0), (1, 2), (2, 3), (3, 2), (1, 4), (0, 5), (5, "x"), ("x", 6), (4, 7), (6, None), (7, 3)]
-UNIVERSE += [(100 + i, 101 + i) for i in range(400)]       # large sets: positions beyond CPython's small-int cache (> 256)
+UNIVERSE += [(100 + i, 101 + i) for i in range(450)]       # large sets: positions beyond CPython's small-int cache (> 256)
 ENC = {e: i + 1 for i, e in enumerate(UNIVERSE)}
 
 
